@@ -66,7 +66,10 @@ def sym_task(task):
             import thermosteam  # noqa
             _shim_info = shim.install()
             from .sx import l0
-            _shim_info = _shim_info + l0.install_if_requested()
+            _shim_info = _shim_info + l0.install_if_requested(opts.get('l0', False))
+            sym_task.l0 = opts.get('l0', False)
+        elif getattr(sym_task, 'l0', False) != opts.get('l0', False):
+            raise RuntimeError('worker was set up for another kernel level')
         g = api.GROUPS[gname]
         max_paths = g.max_paths or (4096 if tier == 'quick' else 65536)
         cross_cap = opts.get('cross_cap', 24 if tier == 'quick' else 200)
@@ -226,14 +229,15 @@ def run_property(prop, tier='quick', jobs=None, seed=0, only=None, write_baselin
         if not cfgs:
             print(f'ENGINE-ERROR: group {gname} has no configurations'); return EXIT_CRASH
         for n, cfg in enumerate(cfgs):
-            tasks.append((gname, cfg, tier, {'want_shim': n == 0}))
+            tasks.append((gname, cfg, tier, {'want_shim': n == 0, 'l0': bool(g.l0 or os.environ.get('VERIF_L0') == 'contract')}))
     ctxm = mp.get_context('fork')
     results = []
-    if tasks:
-        # big configurations first
-        with ctxm.Pool(min(jobs, len(tasks))) as pool:
-            for r in pool.imap_unordered(sym_task, tasks, chunksize=1):
-                results.append(r)
+    for level in (False, True):     # real kernels / contract level of the kernels: separate worker pools
+        sub = [t for t in tasks if t[3]['l0'] == level]
+        if sub:
+            with ctxm.Pool(min(jobs, len(sub))) as pool:
+                for r in pool.imap_unordered(sym_task, sub, chunksize=1):
+                    results.append(r)
     results.sort(key=lambda r: (r['group'], r['cfg']['name']))
 
     shim_info = next((r['shim'] for r in results if r.get('shim')), [])
